@@ -36,6 +36,7 @@ func init() {
 			{Name: "req-reply-before-transmission", Mode: "enum", Reset: kit.ResetGlobals, Body: replyBeforeTransmission, NeedCounters: []string{"guessed-reply-ignored"}},
 			{Name: "req-ids-after-a-failed-send", Mode: "enum", Reset: kit.ResetGlobals, Body: idsAfterFailedSend, NeedCounters: []string{"ids-distinct-after-failed-send"}},
 			{Name: "req-shared-message-two-contexts", Mode: "sched", Bound: b, Reset: kit.ResetGlobals, Body: schedSharedMessage},
+			{Name: "req-sched-send-waiting-for-a-peer-recv-waiting-then-new-send", Mode: "sched", Bound: b, Reset: kit.ResetGlobals, Body: schedWaitingSendRecvNewSend},
 			{Name: "req-sched-two-ctx", Mode: "sched", Bound: b, Reset: kit.ResetGlobals, Body: schedTwoCtx},
 		}
 	})
@@ -800,6 +801,58 @@ func schedFastReply() {
 	kit.Quiesce()
 	if !r2.Done() || r2.Err != nil || r2.Val.(string) != "reply-2" {
 		kit.Failf("sched-recv2-result", "Recv for request 2 (answered): done=%v %s / %q, want \"reply-2\"", r2.Done(), kit.ErrName(r2.Err), r2.Val)
+	}
+	kit.Observe("ok")
+}
+
+// schedWaitingSendRecvNewSend: nobody is connected.  A Send waits for a peer, a Recv for the same
+// request has been posted by another goroutine and waits as well; then a new Send is made on the same
+// socket / context.  The new Send abandons the previous request: its waiting Send and its pending
+// Recv both return (the Recv with the cancellation error), whichever of the two sleepers the
+// wake-up reaches first.  Then a peer connects, takes the new request and answers it.
+func schedWaitingSendRecvNewSend() {
+	w := setup(2)
+	for _, p := range w.pipes {
+		p.DropNow()
+	}
+	kit.Quiesce()
+	m := w.ctxs[kit.ChooseFree(2)]
+	s1 := kit.Start("Send1", func() (interface{}, error) { return nil, m.send([]byte("w1")) })
+	kit.Quiesce()
+	if s1.Done() {
+		kit.Failf("send-returned-without-peer", "%s: Send returned %s although nobody is connected", m.name, kit.ErrName(s1.Err))
+	}
+	r1 := kit.Start("Recv1", func() (interface{}, error) { b, err := m.recvCall(); return string(b), err })
+	kit.Quiesce()
+	s2 := kit.Start("Send2", func() (interface{}, error) { return nil, m.send([]byte("w2")) })
+	kit.Quiesce()
+	if !s1.Done() {
+		// (what the replaced Send returns is not the property's business - the new request takes its place)
+		kit.Failf("abandoned-send-stuck", "%s: the Send that was waiting for a peer is still blocked after a new Send took its place", m.name)
+	}
+	if r1.Done() && r1.Err == mangos.ErrProtoState {
+		// Recv did not wait at all (no request had been transmitted): nothing to cancel
+		kit.Observe("recv-protostate")
+	} else if !r1.Done() || r1.Err != mangos.ErrCanceled {
+		kit.Failf("recv-not-canceled", "%s: a Recv was pending for the request that a new Send abandoned: done=%v %s %q; it must fail with ErrCanceled", m.name, r1.Done(), kit.ErrName(r1.Err), r1.Val)
+	}
+	if s2.Done() {
+		kit.Failf("send-returned-without-peer", "%s: second Send returned %s although nobody is connected", m.name, kit.ErrName(s2.Err))
+	}
+	p := w.ep.Connect()
+	kit.Quiesce()
+	if !s2.Done() || s2.Err != nil {
+		kit.Failf("send-blocked", "%s: a peer has connected, the waiting Send: done=%v %s", m.name, s2.Done(), kit.ErrName(s2.Err))
+	}
+	l := p.SentLog()
+	if len(l) != 1 || string(l[0].Data[4:]) != "w2" {
+		kit.Failf("send-wire-count", "%s: the newcomer was given %d message(s), want exactly the new request", m.name, len(l))
+	}
+	p.Deliver(reply(binary.BigEndian.Uint32(l[0].Data), "answer-2"))
+	r2 := kit.Start("Recv2", func() (interface{}, error) { b, err := m.recvCall(); return string(b), err })
+	kit.Quiesce()
+	if !r2.Done() || r2.Err != nil || r2.Val.(string) != "answer-2" {
+		kit.Failf("recv-wrong-reply", "%s: Recv for the new request (answered): done=%v %s %q", m.name, r2.Done(), kit.ErrName(r2.Err), r2.Val)
 	}
 	kit.Observe("ok")
 }
